@@ -285,5 +285,10 @@ class ShareLayoutRT(Spec):
         return [("canary", Z(out.value["uri_extension"]) < 1000)]
 
 
+def extra_checks(rep, tier):
+    from contracts import immutable_grid
+    immutable_grid.grid_check(rep, tier, "C01")
+
+
 def contracts(tier):
     return [GeometryAgree(), UploadGotSize(), ShareLayoutRT()]
